@@ -1360,6 +1360,10 @@ func (m *Monitors) gc(h *H, repo string) {
 					rs.orphans[c.Digest.String()] = true
 				}
 			}
+			// the index entry is gone; the bytes may stay as a plain blob (a recent upload within the grace period)
+			if g2 := h.do("HEAD", "/v2/"+repo+"/blobs/"+d, reqOpt{mode: "head"}); g2.Status == 200 && !ms.blobGone {
+				rs.blobs[d] = ms.raw
+			}
 			delete(rs.mans, d)
 		}
 	}
@@ -1886,6 +1890,31 @@ func (m *Monitors) afterGC(h *H, repo string) {
 		if was != again.manifest[d] {
 			m.flag(h, "C06.second-pass-changes", fmt.Sprintf("manifest %s: present=%v after one collection, %v after a second", h.tk.tokDigest(d), was, again.manifest[d]))
 			break
+		}
+	}
+	// C06: no index entry without backing content, on disk as well: right after a pass index.json of the directory store lists
+	// nothing whose blob file is missing (an entry whose blob a client deleted through the blob API is the client's doing)
+	if kv(h.confToks, "store") == "dir" && h.root != "" && m.routable(h, repo) {
+		dir := filepath.Join(h.root, repo)
+		if ib, err := os.ReadFile(filepath.Join(dir, "index.json")); err == nil {
+			var idx types.Index
+			if json.Unmarshal(ib, &idx) == nil {
+				for _, d := range idx.Manifests {
+					if d.Digest.Validate() != nil {
+						continue
+					}
+					if ms, ok := rs.mans[d.Digest.String()]; ok && ms.blobGone {
+						continue
+					}
+					if rs.deleted[d.Digest.String()] {
+						continue
+					}
+					if _, err := os.Stat(filepath.Join(dir, "blobs", d.Digest.Algorithm().String(), d.Digest.Encoded())); err != nil {
+						m.flag(h, "C06.index-entry-without-blob", fmt.Sprintf("%s: after the collection index.json still lists %s, whose blob is gone", repo, h.tk.tokDigest(d.Digest.String())))
+						break
+					}
+				}
+			}
 		}
 	}
 	// C06: no index entry without backing content: every tag still listed resolves
